@@ -66,6 +66,9 @@ pub enum FinalReply {
     SealedPrefix(usize),
     /// key+1 followed by non-zero bytes, correctly sealed
     SealedWithTrailing(usize),
+    /// key+2 with as many high-order zero bytes as make the whole TSRequest exactly n bytes long, correctly sealed
+    /// (a wrong value whose message ends exactly on a transport chunk boundary)
+    WrongPaddedTo(usize),
     /// nothing is sent, the connection is closed
     Eof,
 }
@@ -103,6 +106,11 @@ pub struct ServerParams {
     pub manual: bool,
     /// reactivations reuse the share id of the first activation (a server may do either)
     pub reuse_share_id: bool,
+    /// flags of the basic security header of the licensing PDU (0x0080 SEC_LICENSE_PKT, often | 0x0200)
+    pub licence_sec_flags: u16,
+    /// 1..4: a Set Error Info PDU (ERRINFO_NONE; the client announced support for it) is sent before the server's
+    /// synchronize / control-cooperate / granted-control / font-map PDU; 0: never
+    pub errinfo_before: usize,
 }
 
 impl Default for ServerParams {
@@ -133,6 +141,8 @@ impl Default for ServerParams {
             script: vec![],
             disconnect_after_script: false,
             manual: false,
+            licence_sec_flags: 0x0080,
+            errinfo_before: 0,
             reuse_share_id: false,
         }
     }
@@ -821,7 +831,7 @@ impl RefServer {
                 if unit.len() < 4 || unit[3] >> 2 != 25 {
                     return self.fail("expected send-data request carrying client info".into());
                 }
-                let lic = self.sdi(&sec::licence_pdu(&self.p.licence, self.p.preamble_flags));
+                let lic = self.sdi(&sec::licence_pdu_flags(&self.p.licence, self.p.preamble_flags, self.p.licence_sec_flags));
                 self.emit("licence", lic, &mut out);
                 self.phase = if self.p.manual { Phase::Manual } else { Phase::SendDemandActive };
             }
@@ -837,12 +847,22 @@ impl RefServer {
                 self.record(names[k as usize], unit, pending, tls);
                 if k == 3 {
                     let (sid, uid) = (self.current_share_id(), self.p.user_id);
+                    let extra = |me: &mut Self, k: usize, out: &mut Vec<Vec<u8>>| {
+                        if me.p.errinfo_before == k {
+                            let e = me.sdi(&share::set_error_info(sid, 1002, 0));
+                            me.emit("errinfo", e, out);
+                        }
+                    };
+                    extra(self, 1, &mut out);
                     let s1 = self.sdi(&share::synchronize(sid, 1002, uid));
                     self.emit("sync", s1, &mut out);
+                    extra(self, 2, &mut out);
                     let s2 = self.sdi(&share::control(sid, 1002, share::CTRLACTION_COOPERATE, 0, 0));
                     self.emit("coop", s2, &mut out);
+                    extra(self, 3, &mut out);
                     let s3 = self.sdi(&share::control(sid, 1002, share::CTRLACTION_GRANTED_CONTROL, uid, 0x03EA));
                     self.emit("granted", s3, &mut out);
+                    extra(self, 4, &mut out);
                     let s4 = self.sdi(&share::font_map(sid, 1002));
                     self.emit("fontmap", s4, &mut out);
                     self.activations_done += 1;
@@ -986,6 +1006,26 @@ impl RefServer {
                 let mut p = honest_plain.clone();
                 p.extend(std::iter::repeat(0).take(n));
                 wrap_honest(&mut s2c, &p)
+            }
+            FinalReply::WrongPaddedTo(n) => {
+                let wrong = le_add(&key, 2);
+                let build = |pad: usize| {
+                    let mut p = wrong.clone();
+                    p.extend(std::iter::repeat(0).take(pad));
+                    wrap_honest(&mut s2c.clone(), &p)
+                };
+                // the message length grows monotonically with the padding (DER lengths change width on the way):
+                // smallest padding that reaches n
+                let (mut lo, mut hi) = (0usize, n);
+                while lo < hi {
+                    let mid = (lo + hi) / 2;
+                    if build(mid).len() >= n {
+                        hi = mid;
+                    } else {
+                        lo = mid + 1;
+                    }
+                }
+                build(lo)
             }
             FinalReply::SealedPrefix(n) => {
                 let p = honest_plain[..n.min(honest_plain.len())].to_vec();
